@@ -106,6 +106,28 @@ def run(chk):
         cases.append({"id": "mut-%d" % n, "stage": "parsetotal", "src": c["src"],
                       "class": ("header/%d" % c["seed"]) if c["seed"] < 0 else "mutant/seed%d/%d/%d" % (c["seed"], c["e1"] // 1000000, c["e2"] // 1000000),
                       "expect": {"claim": "program XOR non-empty located errors; no crash; terminates"}})
+    # what a learner has on the screen while typing: every character-level prefix of the seed programs (the whole
+    # seed is the longest truncation mutant), behind a comment line of every length 0..15 (so that the prefix ends
+    # at every alignment of the text length)
+    whole = {}
+    for c in res3.cases:
+        if c["seed"] > 0 and c["e1"] // 1000000 == 5 and c["e2"] == 0:
+            t = machine.text_of(c["src"])
+            if len(t) > len(whole.get(c["seed"], "")):
+                whole[c["seed"]] = t
+    npre = 0
+    for sd, t in sorted(whole.items()):
+        ks = range(len(t) + 1)
+        pads = range(16)
+        if chk.tier == "quick":
+            # every prefix that ends inside or just after a string literal, escape or comment, and a seed-chosen third of the others
+            ks = [k for k in ks if (k > 0 and t[k - 1] in '"\\/.') or rnd.random() < 0.34]
+        for k in ks:
+            for pad in pads:
+                cases.append({"id": "pre-%d-%d-%d" % (sd, k, pad), "stage": "parsetotal", "src": ["//" + "x" * pad + "\n" + t[:k]],
+                              "class": "prefix/seed%d" % sd, "expect": {"claim": "program XOR non-empty located errors; no crash; terminates; token positions exist"}})
+                npre += 1
+    chk.extra["character_prefixes"] = npre
     for n, b in enumerate(BINARY):
         cases.append({"id": "bin-%d" % n, "stage": "parsetotal", "src": [{"bytes": b}], "class": "binary/%d" % n,
                       "expect": {"claim": "program XOR non-empty located errors; no crash; terminates"}})
@@ -121,10 +143,10 @@ def run(chk):
     chk.extra.update({"lexer_inputs": sum(1 for c in cases if c["stage"] == "lex"), "mutants_accepted": nacc, "mutants_rejected": nrej,
                       "corpus_files_lexed": len(lines)})
     chk.rule = ("lexer: all strings up to length %d over a 20-character alphabet (blank, tab, newline, ASCII and non-ASCII letters, "
-                "digit, dot, quote, backslash, operators, a non-letter symbol) plus %d seed-chosen strings of length %d and the texts of "
+                "digit, dot, quote, backslash, operators, a non-letter symbol; for every input, spec or not: offsets increase, lie inside the input, EOF at its end, line/column of every token recomputed from its offset) plus %d seed-chosen strings of length %d and the texts of "
                 "repository .evy files, token kinds/offsets/lines/columns from EvyLexer.tla; parser: every deletion, transposition and "
                 "prefix, and (sampled in quick, all in thorough) insertions/substitutions from a 40-token vocabulary at every piece of three "
-                "seed programs, pairs of edits, every sequence of up to 3 header tokens after `func f`, `func f:num`, `on key`, `on down` with bodies that use the "
+                "seed programs, pairs of edits, every character-level prefix of the seed programs behind a comment of each length 0..15, every sequence of up to 3 header tokens after `func f`, `func f:num`, `on key`, `on down` with bodies that use the "
                 "parameter in every expression and statement form, and %d binary / truncated / deeply nested inputs; non-trivial = distinct input"
                 % (maxlen, nsample, slen, len(BINARY)))
     chk.exhaustive = False
